@@ -3,7 +3,7 @@ mod roblox_index_style;
 mod roblox_require_mode;
 mod rojo_sourcemap;
 
-use serde::{Deserialize, Serialize};
+use serde::{de, Deserialize, Deserializer, Serialize};
 
 use crate::frontend::DarkluaResult;
 use crate::nodes::{Arguments, Block, FunctionCall};
@@ -26,8 +26,8 @@ use std::path::{Path, PathBuf};
 use std::str::FromStr;
 
 /// A representation of how require calls are handled and transformed.
-#[derive(Debug, Clone, Serialize, Deserialize, PartialEq, Eq)]
-#[serde(deny_unknown_fields, rename_all = "snake_case", tag = "name")]
+#[derive(Debug, Clone, Serialize, PartialEq, Eq)]
+#[serde(rename_all = "snake_case", tag = "name")]
 pub enum RequireMode {
     /// Handles requires using file system paths
     Path(PathRequireMode),
@@ -35,6 +35,128 @@ pub enum RequireMode {
     Luau(LuauRequireMode),
     /// Handles requires using Roblox's instance-based require system
     Roblox(RobloxRequireMode),
+}
+
+const REQUIRE_MODE_NAMES: [&str; 3] = ["path", "luau", "roblox"];
+
+/// Reads a table (and nothing else) with each of its fields given once.
+pub(crate) struct TableVisitor(pub(crate) &'static str);
+
+impl<'de> de::Visitor<'de> for TableVisitor {
+    type Value = serde_json::Map<String, serde_json::Value>;
+
+    fn expecting(&self, formatter: &mut std::fmt::Formatter) -> std::fmt::Result {
+        write!(formatter, "a table describing {}", self.0)
+    }
+
+    fn visit_map<A: de::MapAccess<'de>>(self, mut map: A) -> Result<Self::Value, A::Error> {
+        let mut fields = serde_json::Map::new();
+        while let Some((key, value)) = map.next_entry::<String, StrictValue>()? {
+            if fields.insert(key.clone(), value.0).is_some() {
+                return Err(de::Error::custom(format!("duplicate field `{}`", key)));
+            }
+        }
+        Ok(fields)
+    }
+}
+
+/// A value in which no table gives a field twice (a plain value would keep the last one).
+struct StrictValue(serde_json::Value);
+
+impl<'de> Deserialize<'de> for StrictValue {
+    fn deserialize<D: Deserializer<'de>>(deserializer: D) -> Result<Self, D::Error> {
+        struct StrictValueVisitor;
+
+        impl<'de> de::Visitor<'de> for StrictValueVisitor {
+            type Value = StrictValue;
+
+            fn expecting(&self, formatter: &mut std::fmt::Formatter) -> std::fmt::Result {
+                formatter.write_str("any value")
+            }
+
+            fn visit_bool<E>(self, value: bool) -> Result<StrictValue, E> {
+                Ok(StrictValue(value.into()))
+            }
+
+            fn visit_i64<E>(self, value: i64) -> Result<StrictValue, E> {
+                Ok(StrictValue(value.into()))
+            }
+
+            fn visit_u64<E>(self, value: u64) -> Result<StrictValue, E> {
+                Ok(StrictValue(value.into()))
+            }
+
+            fn visit_f64<E>(self, value: f64) -> Result<StrictValue, E> {
+                Ok(StrictValue(value.into()))
+            }
+
+            fn visit_str<E>(self, value: &str) -> Result<StrictValue, E> {
+                Ok(StrictValue(value.into()))
+            }
+
+            fn visit_unit<E>(self) -> Result<StrictValue, E> {
+                Ok(StrictValue(serde_json::Value::Null))
+            }
+
+            fn visit_none<E>(self) -> Result<StrictValue, E> {
+                Ok(StrictValue(serde_json::Value::Null))
+            }
+
+            fn visit_some<D: Deserializer<'de>>(
+                self,
+                deserializer: D,
+            ) -> Result<StrictValue, D::Error> {
+                Deserialize::deserialize(deserializer)
+            }
+
+            fn visit_seq<A: de::SeqAccess<'de>>(
+                self,
+                mut sequence: A,
+            ) -> Result<StrictValue, A::Error> {
+                let mut values = Vec::new();
+                while let Some(StrictValue(value)) = sequence.next_element()? {
+                    values.push(value);
+                }
+                Ok(StrictValue(values.into()))
+            }
+
+            fn visit_map<A: de::MapAccess<'de>>(self, map: A) -> Result<StrictValue, A::Error> {
+                TableVisitor("a value")
+                    .visit_map(map)
+                    .map(|fields| StrictValue(fields.into()))
+            }
+        }
+
+        deserializer.deserialize_any(StrictValueVisitor)
+    }
+}
+
+impl<'de> Deserialize<'de> for RequireMode {
+    fn deserialize<D: Deserializer<'de>>(deserializer: D) -> Result<Self, D::Error> {
+        // a require mode is a table that holds the name of the mode. The derived code would
+        // also take a list (the name, then the fields in their order of declaration) and a
+        // number for the name (the position of the mode), so the value is looked at first
+        let mut fields = deserializer.deserialize_map(TableVisitor("a require mode"))?;
+
+        let name = match fields.remove("name") {
+            Some(serde_json::Value::String(name)) => name,
+            Some(_) => {
+                return Err(de::Error::custom(
+                    "invalid require mode: the name of the mode must be a string",
+                ))
+            }
+            None => return Err(de::Error::missing_field("name")),
+        };
+        let fields = serde_json::Value::Object(fields);
+
+        match name.as_str() {
+            "path" => serde_json::from_value(fields).map(Self::Path),
+            "luau" => serde_json::from_value(fields).map(Self::Luau),
+            "roblox" => serde_json::from_value(fields).map(Self::Roblox),
+            _ => return Err(de::Error::unknown_variant(&name, &REQUIRE_MODE_NAMES)),
+        }
+        .map_err(de::Error::custom)
+    }
 }
 
 impl RequireMode {
